@@ -20,7 +20,7 @@ def run(ctx: Ctx) -> Collector:
     _update_min(ctx, c)
     n = 0
     from ..flow import spliced, spliceable
-    for fi in ctx.prog.all_functions():
+    for fi in analysis_units(ctx.prog):
         if fi.parent is not None and not fi.is_async and fi.cls is None and spliceable(ctx.prog, fi.parent, fi):
             continue        # analysed spliced into its parent
         s = spliced(ctx.prog, fi)
@@ -56,7 +56,7 @@ def _table_of(fi: FuncInfo, t: Term) -> Optional[str]:
     if t[0] == "attr" and t[2] in MIN_FIELDS:
         return t[2]
     loc = LOCAL_TABLES.get(fi.qualname)
-    if loc and t[0] == "idx" and t[1] == T.var(loc):
+    if loc and t[0] == "idx" and t[1][0] == "var" and t[1][1].split("§")[0] == loc:
         return loc
     return None
 
@@ -147,7 +147,7 @@ def _judge_store(ctx: Ctx, c: Collector, fi: FuncInfo, s: Summary, e: Event, tna
         return
     # (b) fresh key seeding of a table created in this call
     local = LOCAL_TABLES.get(fi.qualname)
-    if local and table[0] == "idx" and table[1] == T.var(local):
+    if local and table[0] == "idx" and table[1][0] == "var" and table[1][1].split("§")[0] == local:
         # key tuple (table[1..], key) must be enumerated from dict keys, each visited once
         outer_key = table[2]
         its = [items_iter(i) for i in e.iters]
@@ -171,18 +171,23 @@ def _update_min(ctx: Ctx, c: Collector) -> None:
     s = ctx.summ(UPDATE_MIN)
     a, b = T.var(fi.params[0]), T.var(fi.params[1])
     NONE_A = ("cmp", "is", a, T.NONE)
-    items = [(f"{r.idx}:{'b' if r.term == b else 'None' if r.term == T.NONE else 'other'}", r.guards) for r in s.returns]
+    LT = ("cmp", "<", b, a)
+    rv = folded_return(s)
+    items = [(str(r.idx), r.guards) for r in s.returns]
     pr: List[str] = []
     try:
-        for row, fired in tables.rows(items, [NONE_A, ("cmp", "<", b, a)]):
-            out = fired[0].split(":")[1] if fired else "None"
+        # the value returned in every row of (a is None, b < a): guarded returns, a conditional
+        # expression and a named condition are the same function
+        for row, fired in tables.rows(items + [("value", (("g", rv if rv is not None else T.NONE, True),))], [NONE_A, LT]):
+            val = T.strip(boolfn.resolve_phi(unalias(rv, s, fi), row)) if rv is not None else T.NONE
+            out = "b" if val == b else "None" if val == T.NONE else "other"
             if out == "other":
                 pr.append("returns something other than b / None")
                 continue
             if row[NONE_A]:
                 if out != "b":
                     pr.append("with no existing value the new value is not returned")
-            elif row[("cmp", "<", b, a)]:
+            elif row[LT]:
                 if out != "b":
                     pr.append("a strictly smaller new value is not returned")
             else:
